@@ -33,15 +33,18 @@ def tasks(tier):
   if tier == 'quick':
     out += [dict(ob='Q1', m=1, dt='int8'), dict(ob='Q1', m=1, dt='int16'), dict(ob='Q1', m=2, dt='int8'),
             dict(ob='Q2', m=1, dt='int8'), dict(ob='Q3', m=1, dt='int8'), dict(ob='Q3diag', m=2, dt='int16'),
-            dict(ob='Q4', m=1, dt='int8'), dict(ob='Q5', m=2, dt='float32')]
+            dict(ob='Q4', m=1, dt='int8'), dict(ob='Q5', m=2, dt='float32'), dict(ob='V0', m=0, dt='all', n=24)]
   else:
     for dt in ('int8', 'int16'):
       out += [dict(ob='Q1', m=1, dt=dt), dict(ob='Q1', m=2, dt=dt), dict(ob='Q2', m=1, dt=dt),
               dict(ob='Q3', m=1, dt=dt), dict(ob='Q3', m=2, dt=dt), dict(ob='Q3diag', m=2, dt=dt), dict(ob='Q4', m=1, dt=dt),
               # attempted, reported, but not part of the verdict (these did not finish within the budget when built):
               dict(ob='Q2', m=2, dt=dt, stretch=True), dict(ob='Q4', m=2, dt=dt, stretch=True)]
-    out += [dict(ob='Q1', m=3, dt='int8', stretch=True), dict(ob='Q5', m=2, dt='float32')]
+    out += [dict(ob='Q1', m=3, dt='int8', stretch=True), dict(ob='Q5', m=2, dt='float32'), dict(ob='V0', m=0, dt='all', n=90)]
   return out
+
+
+CHOICES = []
 
 
 def evaluate(m, dt, diag=False):
@@ -59,6 +62,7 @@ def evaluate(m, dt, diag=False):
   I = FPInterp(Ctx(), ftz=True)
   x = fp_sym_like('x', np.zeros(shape, np.float32))
   outs = I.eval(jp.jaxpr, jp.consts, x)
+  CHOICES[:] = list(I.ctx.div_choices)          # free Booleans: which lowering each broadcast/constant division uses
   return x, [toobj(o) for o in outs], jp
 
 
@@ -81,7 +85,69 @@ def region(x, dt, known_open):
   return a
 
 
+V0_COMBOS = [(1, 'int8', False), (2, 'int8', False), (1, 'int16', False), (2, 'int16', False), (2, 'int16', True), (2, 'int8', True)]
+V0_SPECIALS = [0.0, -0.0, FLT_MAX, -FLT_MAX, TINY, -TINY, 1e-45, 1e-40, -1e-39, 1.0, 0.5, 1.5, 2.5, 126.5, 127.0, 63.5 / 127, 1e-36, 1.5e-36,
+               3e38, 1e30, 1e-30, 3.4e38, 15.327792167663574]
+
+
+def fp_value(term, sub):
+  from ..fpsolve import parse_fp
+  if not z3.is_expr(term):
+    return float(term)
+  v = z3.simplify(z3.substitute(term, *sub))
+  return parse_fp(v.sexpr())
+
+
+def validate(n_inputs):
+  """translator validation: the FP32 encoding of the jaxpr, evaluated on concrete inputs, must reproduce the real code's
+  result bit for bit - for the op-by-op run and for the jitted run, each under SOME assignment of the division-lowering choices"""
+  import itertools
+  bad, compared, used = [], 0, {}
+  for m, dt, diag in V0_COMBOS:
+    x, outs, jp = evaluate(m, dt, diag)
+    terms = outs[:5]
+    chs = list(CHOICES)
+    rng = np.random.RandomState(m * 7 + len(dt) + diag)
+    for k in range(n_inputs):
+      if k % 3 == 0:
+        xs = np.array([V0_SPECIALS[rng.randint(len(V0_SPECIALS))] for _ in range(x.size)], np.float32)
+      elif k % 3 == 1:
+        xs = (np.float32(2.0) ** rng.uniform(-140, 127, size=x.size) * rng.choice([-1, 1], size=x.size)).astype(np.float32)
+      else:
+        xs = (rng.randn(x.size) * 10).astype(np.float32)
+      xs = xs.reshape(x.shape)
+      sub = [(v, z3.FPVal(float(a), F)) for v, a in zip(x.reshape(-1), xs.reshape(-1))]
+      models = {}
+      for bits_ in itertools.product([False, True], repeat=len(chs)):
+        sb = sub + [(c, z3.BoolVal(b)) for c, b in zip(chs, bits_)]
+        models[bits_] = [np.array([fp_value(tm, sb) for tm in arr.reshape(-1)], np.float64) for arr in terms]
+      for jit in (False, True):
+        real = [np.asarray(v, np.float64).reshape(-1) for v in real_cycle(xs, dt, diag, jit)]
+        compared += 1
+
+        def same(mv, rv):
+          if not np.all(np.isfinite(rv[2])):      # re-quantisation of a non-finite tensor: float->int of NaN is outside the encoding (and the property)
+            mv, rv = mv[:3], rv[:3]
+          return all((np.isnan(a) and np.isnan(b)) or (a == 0 and b == 0) or np.float32(a).tobytes() == np.float32(b).tobytes()
+                     for mo, ro in zip(mv, rv) for a, b in zip(mo, ro))
+        ok = [bits_ for bits_, mv in models.items() if same(mv, real)]
+        if ok:
+          used[(jit, ok[0])] = used.get((jit, ok[0]), 0) + 1
+        else:
+          bad.append(f'm={m} {dt} diag={diag} jit={jit} x={xs.reshape(-1).tolist()}: real {[r.tolist() for r in real]} matches no lowering of the encoding '
+                     f'(IEEE-division lowering gives {[v.tolist() for v in models[tuple([False] * len(chs))]]})')
+  return bad, compared, used
+
+
 def work(t):
+  if t['ob'] == 'V0':
+    t0_ = time.time()
+    bad, compared, used = validate(t.get('n', 24))
+    res = [dict(name=f'V0|translator validation: FP32 encoding = real code bit for bit on {compared} concrete runs (op-by-op and jitted; boundary values, '
+                     'subnormals, ties, random)', status='unsat' if not bad else 'unknown', kind='core', queries=0,
+                note='lowerings matched: ' + ', '.join(f"{'jit' if j else 'eager'}:{''.join('R' if b else 'D' for b in bits_) or '-'} x{n}" for (j, bits_), n in sorted(used.items())))]
+    return dict(results=res, violations=[], errors=[f'translator validation mismatch: {b[:600]}' for b in bad[:3]], configs=1, samples=[dict(task=t)],
+                extra=dict(eval_s=round(time.time() - t0_, 2)))
   t0_ = time.time()
   ob, m, dt = t['ob'], t['m'], t['dt']
   tag = f'{ob}|m={m}|{dt}'
@@ -90,20 +156,48 @@ def work(t):
   timeout = int(t.get('timeout', 1200))
 
   def decide(name, assume, goal, x):
+    """one query per assignment of the division-lowering choices (each is a simpler formula), raced in parallel"""
+    import itertools
+    import concurrent.futures as cf
+    from ..fpsolve import to_smt2, check_text
     names = [str(v) for v in x.reshape(-1)]
-    r = check_fp(list(assume) + [z3.Not(goal)], names=names, timeout_s=timeout)
-    st = r['status']
-    out = dict(name=name, status=st, kind='stretch' if t.get('stretch') else 'core', queries=1, solver_s=r['wall_s'], note=f"decided by {r['solver']}")
+    body = z3.And(list(assume) + [z3.Not(goal)])
+    occurring, todo, seen = set(), [body], set()
+    while todo:
+      e_ = todo.pop()
+      if e_.get_id() in seen:
+        continue
+      seen.add(e_.get_id())
+      if z3.is_const(e_) and e_.decl().kind() == z3.Z3_OP_UNINTERPRETED and z3.is_bool(e_):
+        occurring.add(str(e_))
+      todo.extend(e_.children())
+    chs = [c for c in CHOICES if str(c) in occurring]
+    texts = []
+    for bits_ in itertools.product([False, True], repeat=len(chs)):
+      f = z3.simplify(z3.substitute(body, *[(c, z3.BoolVal(b)) for c, b in zip(chs, bits_)])) if chs else body
+      texts.append((bits_, to_smt2([f])))
+    with cf.ThreadPoolExecutor(max_workers=max(1, len(texts))) as ex:
+      rs = list(ex.map(lambda bt: check_text(bt[1], names, timeout), texts))
+    sats = [(bt[0], r) for bt, r in zip(texts, rs) if r['status'] == 'sat']
+    st = 'sat' if sats else ('unsat' if all(r['status'] == 'unsat' for r in rs) else 'unknown')
+    out = dict(name=name, status=st, kind='stretch' if t.get('stretch') else 'core', queries=len(texts), solver_s=round(max(r['wall_s'] for r in rs), 2),
+               note=f"{len(texts)} division-lowering cases; decided by {sorted({str(r['solver']) for r in rs})}")
     if st == 'sat':
-      xs = np.array([r['model'].get(n, 0.0) for n in names], np.float32).reshape(x.shape)
-      what = concrete(ob, dt, xs)
-      if what:
+      reproduced = None
+      for bits_, r in sats:
+        xs = np.array([r['model'].get(n, 0.0) for n in names], np.float32).reshape(x.shape)
+        what = concrete(ob, dt, xs)
+        if what:
+          reproduced = (xs, what)
+          break
+      if reproduced:
+        xs, what = reproduced
         path = write_replay(PID, dict(property=PID, ob=ob, dt=dt, x=[float(v) for v in xs.reshape(-1)], shape=list(xs.shape), observed=what))
         viol.append(dict(key=f'C11:{ob}:{dt}', what=what, replay=path))
         out['status'] = 'violation'
       else:
         out['status'] = 'spurious'
-        out['note'] += f'; model {xs.reshape(-1).tolist()} did not reproduce on the real code'
+        out['note'] += f'; model {xs.reshape(-1).tolist()} (lowering {bits_}) did not reproduce on the real code (op-by-op and jitted)'
     res.append(out)
     return out
 
@@ -154,24 +248,43 @@ def work(t):
     decide(f'{tag}|extracted diagonal of a square matrix is reproduced exactly', A, z3.And(goals), x)
     twin(f'{tag}|twin: non-zero diagonal reachable', A, [z3.Not(z3.fpIsZero(x[0, 0]))])
   elif ob == 'Q4':
-    goals = [z3.fpEQ(a, b) for a, b in zip(q2.reshape(-1), q.reshape(-1))] + [z3.fpEQ(a, b) for a, b in zip(bs2.reshape(-1), bs.reshape(-1))]
+    goals = [z3.fpEQ(a, b) for a, b in zip(q2.reshape(-1), q.reshape(-1))]
     # re-quantisation sees the dequantised column: its own max must also be outside the open-finding regions
     A2 = A + region(deq, dt, known_open)
-    decide(f'{tag}|re-quantizing the dequantized value reproduces the same integers and bucket', A2, z3.And(goals), x)
+    decide(f'{tag}|re-quantizing the dequantized value reproduces the same integers', A2, z3.And(goals), x)
   return dict(results=res, violations=viol, errors=[], configs=1, samples=[dict(task=t, jaxpr_eqns=len(jp.jaxpr.eqns))],
               extra=dict(eval_s=round(time.time() - t0_, 2)))
 
 
 # ------------------------------------------------------------------------- replay
-def concrete(ob, dt, xs):
-  """the property on the real code for one concrete float32 tensor; returns a description or None"""
+def real_cycle(xs, dt, diag, jit):
+  """quantize, dequantize, re-quantize on the real code; op-by-op or as one jitted program (XLA lowers the two differently)"""
   from precondition.quantization_utils import QuantizedValue
   qd = getattr(jnp, dt)
+
+  def f(x):
+    qv = QuantizedValue.from_float_value(x, qd, extract_diagonal=diag)
+    d = qv.to_float()
+    qv2 = QuantizedValue.from_float_value(d, qd, extract_diagonal=diag)
+    return qv.quantized, qv.bucket_size, d, qv2.quantized, qv2.bucket_size
+  return [np.asarray(v) for v in (jax.jit(f) if jit else f)(jnp.asarray(xs))]
+
+
+def concrete(ob, dt, xs):
+  """the property on the real code for one concrete float32 tensor, executed op-by-op and jitted"""
+  for jit in (False, True):
+    what = concrete1(ob, dt, xs, jit)
+    if what:
+      return what + (' [jitted]' if jit else ' [op-by-op]')
+  return None
+
+
+def concrete1(ob, dt, xs, jit):
   xs = np.asarray(xs, np.float32)
   diag = ob == 'Q3diag'
-  qv = QuantizedValue.from_float_value(jnp.asarray(xs), qd, extract_diagonal=diag)
-  d = np.asarray(qv.to_float(), np.float32)
-  q = np.asarray(qv.quantized).astype(np.int64)
+  qr, bsr, d, q2r, bs2r = real_cycle(xs, dt, diag, jit)
+  d = np.asarray(d, np.float32)
+  q = qr.astype(np.int64)
   nb = int(nb_of(dt))
   x64 = xs.astype(np.float64)
   if ob == 'Q1':
@@ -196,10 +309,9 @@ def concrete(ob, dt, xs):
       return f'diagonal {np.diag(xs).tolist()} comes back as {np.diag(d).tolist()}'
     return None
   if ob == 'Q4':
-    qv2 = QuantizedValue.from_float_value(jnp.asarray(d), qd, extract_diagonal=diag)
-    if not np.array_equal(np.asarray(qv2.quantized), np.asarray(qv.quantized)) or not np.array_equal(np.asarray(qv2.bucket_size), np.asarray(qv.bucket_size)):
-      return (f're-quantizing dequantize(quantize({xs.reshape(-1).tolist()})) gives integers {np.asarray(qv2.quantized).reshape(-1).tolist()} '
-              f'bucket {np.asarray(qv2.bucket_size).tolist()} instead of {q.reshape(-1).tolist()} / {np.asarray(qv.bucket_size).tolist()}')
+    if not np.array_equal(q2r, qr):
+      return (f're-quantizing dequantize(quantize({xs.reshape(-1).tolist()})) gives integers {q2r.reshape(-1).tolist()} '
+              f'instead of {q.reshape(-1).tolist()}')
     return None
   return None
 
